@@ -31,6 +31,7 @@ GENERATED_OBLIGATIONS = ["Generated.writer = Writer.assumed"]
 RULE = ("configurations: 1-3 producers x 0-5 messages, failure masks (none / first / last / every other / all), 1-3 start/stop cycles; "
         "schedules: context-bounded DFS (<= 2 preemptions quick, <= 3 thorough) from the real code's enabled sets plus seeded random schedules; "
         "some messages are empty / zero objects ({}, [], 0, "", b"", ()) since the writer accepts any object; "
+        "redundant stopService calls (again after a completed stop / before any start) between the cycles; "
         "plus bursts of 1 500 / 12 000 (thorough: 50 000) messages offered before the writer thread runs (backlog dimension, oracle only); "
         "a case = (configuration, executed schedule); non-trivial = >= 1 message, >= 1 preemption, and at least one put happens after the "
         "first startService statement ran; distinct by canonical hash")
@@ -172,12 +173,33 @@ def run_real(S, case, chooser):
                 w(pay.make(k))
         return body
 
+    redundant = list(case.get("redundant") or [])
+    skip = []  # step ranges of redundant stopService calls (not part of any cycle)
+
+    def redundant_stop(tag):
+        # stopService on a service that is not running: whatever it answers (the pinned code raises ValueError from
+        # removeDestination), it must leave nothing behind for the next cycle
+        a = S.current()[1]
+        try:
+            d2 = w.stopService()
+            out = "returned"
+            if hasattr(d2, "called"):
+                S.pseudo_gate("<await-redundant-stop>", lambda d2=d2: d2.called)
+        except Exception as e:  # noqa - observation
+            out = type(e).__name__
+        skip.append([a, S.current()[1]])
+        log.append(["redundant-stop", tag, out])
+
     def controller():
+        if "pre" in redundant:
+            redundant_stop("pre")
         for c in range(case["cycles"]):
             w.startService()
             d = w.stopService()
             d.addCallback(lambda r, c=c: (log.append(["stopped", c, S.current()[0]]), r)[1])
             S.pseudo_gate("<await-stop>", lambda d=d: d.called)
+            if c in redundant:
+                redundant_stop(c)
 
     try:
         res = S.run([producer(p) for p in case["producers"]] + [controller], chooser)
@@ -196,7 +218,7 @@ def run_real(S, case, chooser):
     for e in res.errors.values():
         if isinstance(e, InfraError):
             raise e
-    return res, dict(log=log, puts=q.puts, left=left, errors=errors, running=bool(getattr(w, "running", None)))
+    return res, dict(log=log, puts=q.puts, left=left, errors=errors, running=bool(getattr(w, "running", None)), skip=skip)
 
 
 def thread_roles(res, nprod):
@@ -287,7 +309,7 @@ def oracle(case, res, obs):
 
 # ---- model schedule -----------------------------------------------------------------------------------
 
-def model_case(sk, case, res):
+def model_case(sk, case, res, obs=None):
     nprod = len(case["producers"])
     readers, joiners, _ = thread_roles(res, nprod)
     L = sk["lines"]
@@ -296,8 +318,11 @@ def model_case(sk, case, res):
     dest_lines = set(L.get("dest_call", []))
     call_lines = set(L.get("call", []))
     out = []
-    for s in res.trace:
+    skip = (obs or {}).get("skip") or []
+    for i, s in enumerate(res.trace):
         t = s.tid
+        if t == nprod and any(a <= i < b for a, b in skip):
+            continue  # a redundant stopService: no step of the cycle model
         if t < nprod:
             if s.file == LOGWRITER and s.line in call_lines:
                 out.append(["p", t])
@@ -327,6 +352,8 @@ def compare(ctx, case, res, obs, mo):
     ridx = {t: k for k, t in enumerate(readers)}
     real_events = []
     for e in obs["log"]:
+        if e[0] == "redundant-stop":
+            continue
         if e[0] == "call":
             real_events.append(["call", e[1], ridx.get(e[2], "thread-%s" % e[2]), e[3]])
         else:
@@ -382,6 +409,12 @@ def configs(rng, n, thorough):
         picks = rng.sample(flat, min(len(flat), rng.choice([1, 1, 2])))
         ks = rng.sample(kinds, len(picks))
         c["falsy"] = {str(m): k for m, k in zip(picks, ks)}
+    # redundant stopService calls: again after a completed stop, or before the service was ever started
+    for j, c in enumerate(out):
+        if c["cycles"] >= 2 and j % 2 == 1:
+            c["redundant"] = [rng.randrange(c["cycles"] - 1)] + (["pre"] if rng.random() < 0.3 else [])
+        elif j % 7 == 3:
+            c["redundant"] = ["pre"] if rng.random() < 0.5 else [c["cycles"] - 1]
     return out
 
 
@@ -417,7 +450,7 @@ def run(ctx):
     bound = ctx.budget(2, 3)
     dfs_limit = ctx.budget(160, 3000) * (2 if broken else 1)
     nrandom = ctx.budget(25, 250) * (2 if broken else 1)
-    deadline = time.time() + ctx.budget(70, 800)
+    deadline = time.time() + ctx.budget(55, 800)
     S = make_scheduler()
     model_in, model_ctx = [], []
     nviol = 0
@@ -427,7 +460,7 @@ def run(ctx):
         if left <= 0 or nviol >= 3:
             break
         per_end = time.time() + max(1.0, left / (len(cfgs) - ci) * 2)
-        case0 = dict(producers=cfg["producers"], cycles=cfg["cycles"], fails=cfg["fails"], falsy=cfg.get("falsy") or {})
+        case0 = dict(producers=cfg["producers"], cycles=cfg["cycles"], fails=cfg["fails"], falsy=cfg.get("falsy") or {}, redundant=cfg.get("redundant") or [])
         nprod = len(cfg["producers"])
         nmsgs = sum(len(p) for p in cfg["producers"])
 
@@ -448,14 +481,14 @@ def run(ctx):
             fs = first_start_step(res, sk, nprod)
             late_put = fs is not None and any(s.tid < nprod and s.line in call_lines for s in res.trace[fs:])
             ctx.case(case, nontrivial=nmsgs >= 1 and res.preemptions >= 1 and late_put,
-                     tags=["producers:%d" % nprod, "messages:%d" % nmsgs, "cycles:%d" % cfg["cycles"], "mask:" + cfg["mask"], "sched:" + how, "falsy-messages:%d" % len(cfg.get("falsy") or {}),
+                     tags=["producers:%d" % nprod, "messages:%d" % nmsgs, "cycles:%d" % cfg["cycles"], "mask:" + cfg["mask"], "sched:" + how, "falsy-messages:%d" % len(cfg.get("falsy") or {}), "redundant-stops:%d" % len(cfg.get("redundant") or []),
                            "preemptions:%d" % min(res.preemptions, 4)])
             ctx.count("steps", n=len(res.trace))
             bad = oracle(case0, res, obs)
             if bad:
                 nviol += 1
                 ctx.violation(bad[0], dict(case, observed=obs, also=bad[1:4]), key=None)
-            model_in.append(model_case(sk, case0, res))
+            model_in.append(model_case(sk, case0, res, obs))
             model_ctx.append((case, res, obs))
             if bad:
                 break
@@ -507,7 +540,7 @@ def replay(ctx, obj):
         run(ctx)
         return
     S = make_scheduler()
-    c0 = dict(producers=case["producers"], cycles=case["cycles"], fails=case["fails"], falsy=case.get("falsy") or {})
+    c0 = dict(producers=case["producers"], cycles=case["cycles"], fails=case["fails"], falsy=case.get("falsy") or {}, redundant=case.get("redundant") or [])
     res, obs = run_real(S, c0, sched.Explicit(case["schedule"]))
     print("configuration:", json.dumps(c0))
     print("executed     :", res.lines[:600])
